@@ -84,6 +84,17 @@ class Elaborator:
         # Check whether we are elaborating a single object or a list thereof
         tops: List[Elaboratable] = top if isinstance(top, List) else [top]
 
+        # Modules which an earlier, failed run left part-way through elaboration are still editable, and may have been edited since.
+        # Forget that they have been through any pass, so that they are elaborated - and checked - again from the start.
+        # (Unless we are called from inside a running elaboration, e.g. by a generator body; its bookkeeping is left alone.)
+        # Modules on which a pass failed are not among them: those stay as they are, and report their failure again when that pass is reached.
+        caches = [elabpass.CLASS_LEVEL_CACHE for elabpass in self.passes]
+        if not any(cache.pending for cache in caches):
+            failed = set().union(*(cache.failed.keys() for cache in caches))
+            for cache in caches:
+                unfinished = [m for m in cache.done if m._elaborated is None and m not in failed]
+                cache.done.difference_update(unfinished)
+
         # Pass `tops` through each of our passes, in order
         for elabpass in self.passes:
             tops = elabpass.elaborate(tops=tops)
